@@ -23,6 +23,7 @@ def run(chk):
     chk.variant(prog)
     r1(chk, prog)
     r2(chk, prog)
+    r3(chk, prog)
     r4(chk, prog)
     r5(chk, prog)
     from . import c11
@@ -31,7 +32,6 @@ def run(chk):
         "string -> number conversion results (strtoll/strtod on data)",
         "exactness of int -> double conversions",
         "unsigned wrap-around arithmetic in the uint64 branch of json_object_int_inc (no nsw flag to anchor an obligation; value-level)",
-        "union discriminant agreement between c_int64 and c_uint64 (both are i64 at IR level; see DESIGN.md)",
     ]
 
 
@@ -431,3 +431,151 @@ def r5(chk, prog):
                 chk.refuted(rid, name, "store cint_type", val_store.locstr(),
                             "the representation tag stored with the value is not %d (signedness of later reads would be wrong)" % tag)
     chk.floor(rid, n, 6, "setter stores")
+
+
+# ---------------------------------------------------------------------------
+# R3 the union member that is read or written agrees with the representation tag
+def _member_of(i):
+    """'int' / 'uint' for a bitcast of the integer node's union to i64* (clang names the value after the member)"""
+    if i.op != "bitcast" or i.res is None or not i.type.startswith("i64*"):
+        return None
+    src = i.ops[0]
+    if not (src.type or "").startswith("%union."):
+        return None
+    if i.res.startswith("c_uint64"):
+        return "uint"
+    if i.res.startswith("c_int64"):
+        return "int"
+    return None
+
+
+def _tag_context(f, P, block, obj, T_I, T_U):
+    """'int' / 'uint' / None: what the dominating tests on <obj>cint_type say at this block"""
+    know = None
+    for c, tr in dominating_conditions(f, block):
+        if getattr(c, "op", None) == "icmp":
+            a, b = c.ops
+            if a.kind != "reg" or b.kind != "int":
+                continue
+            if P.path(a) != obj + "cint_type":
+                continue
+            eq = (c.x["pred"] == "eq") == tr
+            if c.x["pred"] not in ("eq", "ne"):
+                continue
+            if b.v == T_I:
+                know = "int" if eq else "uint"
+            elif b.v == T_U:
+                know = "uint" if eq else "int"
+        elif getattr(c, "op", None) == "switch":
+            sel = c.ops[0]
+            if sel.kind != "reg" or P.path(sel) != obj + "cint_type":
+                continue
+            kind = tr[0]
+            if kind == "cases":
+                vals = set(tr[1])
+                if vals == {T_I}:
+                    know = "int"
+                elif vals == {T_U}:
+                    know = "uint"
+    return know
+
+
+def _signed_uses(f, cfg, reg, depth=0, seen=None):
+    """(signed-sensitive uses, unsigned-sensitive uses) of an integer value, through copies"""
+    seen = seen if seen is not None else set()
+    sgn, uns = [], []
+    if reg in seen or depth > 4:
+        return sgn, uns
+    seen.add(reg)
+    for u in cfg.users(reg):
+        if u.op == "icmp":
+            p = u.x["pred"]
+            if p[0] == "s":
+                sgn.append(u)
+            elif p[0] == "u":
+                uns.append(u)
+        elif u.op in ("sitofp", "sext", "sdiv", "srem", "ashr"):
+            sgn.append(u)
+        elif u.op in ("uitofp", "zext", "udiv", "urem", "lshr"):
+            uns.append(u)
+        elif u.op in ("bitcast", "phi", "select") and u.res is not None:
+            a, b = _signed_uses(f, cfg, u.res, depth + 1, seen)
+            sgn += a
+            uns += b
+    return sgn, uns
+
+
+def r3(chk, prog):
+    rid = "C10.R3"
+    chk.rule(rid, "an integer node's union member is read under the representation tag it belongs to (c_int64 where cint_type is the "
+                  "signed tag, c_uint64 where it is the unsigned tag: dominating test or switch case on the same node), and a write of a "
+                  "member is accompanied by a write of its tag; member identity is taken from the names clang gives the access values")
+    m = prog.module("json_object.c")
+    tags = m.enumerators("json_object_int_type")
+    chk.require("json_object_int_type_int64" in tags and "json_object_int_type_uint64" in tags, "json_object_int_type enumerators not found")
+    T_I, T_U = tags["json_object_int_type_int64"], tags["json_object_int_type_uint64"]
+    n = 0
+    for f in [g for g in m.functions.values() if not g.is_decl]:
+        P = None
+        cfg = None
+        for bc in f.instrs():
+            mem = _member_of(bc)
+            if mem is None:
+                continue
+            if P is None:
+                P = Paths(f, prog)
+                cfg = cfg_of(f)
+            upath = P.path(bc.ops[0])
+            if not upath.endswith("cint"):
+                continue
+            obj = upath[:-len("cint")]
+            for u in cfg.users(bc.res):
+                if u.op not in ("load", "store"):
+                    continue
+                n += 1
+                chk.touched(f)
+                sig = "%s %sc_%sint64" % ("read of" if u.op == "load" else "write of", obj, "u" if mem == "uint" else "")
+                ctx = _tag_context(f, P, u.block, obj, T_I, T_U)
+                if u.op == "store":
+                    # constructor / setter / change of representation: the matching tag is written on the same straight-line path
+                    want = T_I if mem == "int" else T_U
+                    tagstores = [s for s in f.instrs() if s.op == "store" and P.path(s.ops[1]) == obj + "cint_type"]
+                    good = [s for s in tagstores if s.ops[0].kind == "int" and s.ops[0].v == want and
+                            (s.block is u.block or cfg.dominates_block(s.block, u.block))]
+                    if good:
+                        chk.proven(rid, f.name, sig, u.locstr(), "the matching tag is stored at %s" % good[0].locstr())
+                        continue
+                    if ctx is None:
+                        chk.refuted(rid, f.name, sig, u.locstr(),
+                                    "the %s member is written with neither a dominating test of the node's tag nor a store of the %s tag on "
+                                    "the same path: on a node that holds the other representation the stored bits are reinterpreted "
+                                    "(a negative value reads back as a huge unsigned one, or the reverse)"
+                                    % ("unsigned" if mem == "uint" else "signed", "unsigned" if mem == "uint" else "signed"))
+                        continue
+                if ctx is None:
+                    chk.undecided(rid, f.name, sig, u.locstr(), "no dominating test of %scint_type" % obj)
+                elif ctx == mem:
+                    chk.proven(rid, f.name, sig, u.locstr(), "under the %s tag" % ("signed" if mem == "int" else "unsigned"))
+                elif u.op == "load":
+                    # reading the other member reinterprets the same 64 bits: it is wrong only when the value is then used with
+                    # the signedness of the member it was read through, not with the signedness the tag says
+                    sgn, uns = _signed_uses(f, cfg, u.res)
+                    wrong = sgn if ctx == "uint" else uns
+                    right = uns if ctx == "uint" else sgn
+                    if wrong:
+                        chk.refuted(rid, f.name, sig, u.locstr(),
+                                    "the %s member is read where the tag says the node holds the %s representation and the value is "
+                                    "then used as %s (%s at %s): a value at or above 2^63 (or a negative one) is misinterpreted"
+                                    % ("unsigned" if mem == "uint" else "signed", "signed" if ctx == "int" else "unsigned",
+                                       "signed" if ctx == "uint" else "unsigned", wrong[0].op, wrong[0].locstr()))
+                    elif right:
+                        chk.proven(rid, f.name, sig, u.locstr(), "read through the other member but used with the signedness of the tag (%s)" % right[0].op)
+                    else:
+                        chk.undecided(rid, f.name, sig, u.locstr(), "read through the other member; the signedness of its use is not visible here")
+                else:
+                    chk.refuted(rid, f.name, sig, u.locstr(),
+                                "the %s member is %s where the tag says the node holds the %s representation: a value at or above 2^63 "
+                                "(or a negative one) is reinterpreted" % ("unsigned" if mem == "uint" else "signed",
+                                                                         "read" if u.op == "load" else "written",
+                                                                         "signed" if ctx == "int" else "unsigned"))
+    chk.floor(rid, n, 30, "accesses to the integer union members")
